@@ -55,7 +55,7 @@ def cases(tier, seed):
     frames = list(range(len(FRAMES))) if tier == "thorough" else sorted({0, 4, 1 + seed % 7})
     for name in base_hexes():
         for nb in (False, True):
-            out.append({"kind": "hex", "shape": name, "neighbour": nb, "frames": frames})
+            out.append({"kind": "hex", "shape": name, "neighbour": nb, "frames": frames, "tier": tier})
     for name in base_quads():
         for nb in (False, True):
             out.append({"kind": "quad", "shape": name, "neighbour": nb, "frames": frames})
@@ -77,8 +77,9 @@ def hex_quality(points8, neighbour):
     return float(grid.cells[0].quality)
 
 
-def hex_quality_numbered(points8, perm, neighbour):
-    """quality of the same geometric cell (and neighbour) with the first cell's corners renumbered"""
+def hex_quality_numbered(points8, perm, neighbour, nperm=None, subject_first=True):
+    """quality of the same geometric cell (and neighbour) with the subject cell's corners renumbered by perm, the
+    neighbour's by nperm, and either of the two listed first"""
     from classy_blocks.optimize.grid import HexGrid
 
     pts = np.array(points8, dtype=float)
@@ -87,10 +88,13 @@ def hex_quality_numbered(points8, perm, neighbour):
     if neighbour:
         up = np.mean(pts[4:] - pts[:4], axis=0)
         all_pts = np.vstack([pts, pts[4:] + up])
-        addressing.append([4, 5, 6, 7, 8, 9, 10, 11])
+        base = [4, 5, 6, 7, 8, 9, 10, 11]
+        addressing.append(base if nperm is None else [base[nperm[j]] for j in range(8)])
+        if not subject_first:
+            addressing.reverse()
     grid = HexGrid(all_pts, addressing)
     try:
-        return float(grid.cells[0].quality)
+        return float(grid.cells[0 if subject_first or not neighbour else 1].quality)
     except ValueError:
         return None
 
@@ -132,6 +136,15 @@ def run_case(case):
             q = hex_quality_numbered(pts, perm, case["neighbour"])
             execs += 1
             cmp(q, ref, 1e-6, "renumbering-changes-quality", {"shape": case["shape"], "neighbour": case["neighbour"], "numbering": k})
+        if case["neighbour"]:
+            # the neighbour renumbered as well, and either block listed first
+            nperms = range(24) if case.get("tier") == "thorough" else (0, 1, 5, 9, 14, 17, 22)
+            for k in (0, 5, 17) if case.get("tier") != "thorough" else range(24):
+                for nk in nperms:
+                    for first in (True, False):
+                        q = hex_quality_numbered(pts, HEXSYM24[k], True, HEXSYM24[nk], first)
+                        execs += 1
+                        cmp(q, ref, 1e-6, "renumbering-changes-quality", {"shape": case["shape"], "neighbour": True, "numbering": k, "neighbour_numbering": nk, "subject_first": first})
         for fr in case["frames"]:
             for sc in SCALES:
                 p2 = frame_apply(FRAMES[fr], pts * sc)
